@@ -107,4 +107,4 @@ def strategy(draw):
 
 def subchecks(tier):
     q = tier == "quick"
-    return [Hyp("witnessed-lightness-fix", strategy, judge, examples=4000 if q else 120000)]
+    return [Hyp("witnessed-lightness-fix", strategy, judge, examples=16000 if q else 300000)]
